@@ -73,15 +73,16 @@ class Show(ASTNode):
         where_str = f' WHERE {str(self.where)}' if self.where else ''
 
         # custom commands
-        if self.category in ('FUNCTION CODE', 'PROCEDURE CODE', 'ENGINE') or self.category.startswith('ENGINE '):
-            return f'SHOW {self.category} {self.name}'
-        elif self.category == 'REPLICA STATUS':
+        if self.category == 'REPLICA STATUS':
             channel = ''
             if self.name is not None:
                 channel = f' FOR CHANNEL {self.name}'
             return f'SHOW {self.category} {channel}'
 
-        return f'SHOW{modes_str} {self.category}{from_str}{in_str}{like_str}{where_str}'
+        # SHOW <word> <word> <name> (FUNCTION CODE f, ENGINE e STATUS, ...): the name follows the category
+        name_str = f' {self.name}' if self.name is not None else ''
+
+        return f'SHOW{modes_str} {self.category}{name_str}{from_str}{in_str}{like_str}{where_str}'
 
 
 
